@@ -26,6 +26,9 @@ class FileBackups:
     #     attempt. We use this to select a filename to store the backup. This
     #     starts at 0 and increases by one every time we attempt to back up a
     #     file.
+    # Lock _regular_file_lock - The lock that makes back_up_and_remove_regular_file
+    #     atomic. We may acquire _lock while holding _regular_file_lock, but not
+    #     vice versa.
     # str _temp_dir - The temporary directory where we are storing the backups.
 
     def __init__(self):
@@ -33,6 +36,7 @@ class FileBackups:
         self._next_backup_index = 0
         self._temp_dir = None
         self._lock = threading.Lock()
+        self._regular_file_lock = threading.Lock()
 
     def __enter__(self):
         self._temp_dir = tempfile.mkdtemp(None, 'file_builder_')
@@ -88,6 +92,28 @@ class FileBackups:
         with self._lock:
             self._backups.append((filename, backup_filename))
         return True
+
+    def back_up_and_remove_regular_file(self, filename):
+        """Back up and remove the specified file if it is a regular file.
+
+        This is like ``back_up_and_remove``, except it has no effect if
+        the filename does not refer to a regular file, and checking
+        this and moving the file is atomic with respect to other calls
+        to ``back_up_and_remove_regular_file``. This matters if multiple
+        threads try to replace the same regular file with a directory:
+        the thread that comes second must not move the first thread's
+        new directory.
+
+        Returns:
+            bool: Whether the file existed and was a regular file.
+
+        Raises:
+            OSError: If an OS error occurred.
+        """
+        with self._regular_file_lock:
+            if not os.path.isfile(filename):
+                return False
+            return self.back_up_and_remove(filename)
 
     def restore_all(self):
         """Restore all files backed up since the last ``restore_all()`` call.
